@@ -198,7 +198,7 @@ fn sequential(ctx: &Ctx, p: &Proto, b: Backend, writer: Side) {
         ops_s.push(Op::SWrite { side: writer, nonce: n, plen: 10 + n as usize, cap: Cap::Roomy });
     }
     // large nonces: move the stateful sender with the hook
-    let large: Vec<u64> = vec![1 << 31, (1 << 32) - 1, 1 << 32, (1 << 32) + 1, 1 << 56, 1 << 63, u64::MAX - 2, 0x0102_0304_0506_0708];
+    let large: Vec<u64> = vec![1 << 31, (1 << 32) - 1, 1 << 32, (1 << 32) + 1, 1 << 56, 1 << 63, u64::MAX - 2, u64::MAX - 1, 0x0102_0304_0506_0708];
     for (k, &n) in large.iter().enumerate() {
         ops_t.push(Op::SetSendNonce { side: writer, n });
         ops_t.push(Op::TWrite { side: writer, plen: 30 + k, cap: Cap::Roomy });
@@ -271,7 +271,7 @@ use conc::{explore_mix, mixes, stress_mix};
 pub fn run(tier: Tier) -> i32 {
     let ctx = Ctx::new("C16", tier, "model_checking");
     let quick = ctx.quick();
-    ctx.set_rule("sequential: for every cipher x backend x writer role: read(n, write(n, p)) == p for an 80-value nonce alphabet x payload sizes {0,1,64,1000}, read twice, and the payload sizes 65503/65504/65518/65519; all 120 orders of five calls x 3 repetitions give identical bytes; stateless message under n == n-th stateful message for n in 0..=8, and == the stateful message after verif_set_sending_nonce(n) for 8 large nonces, and for the 65519-byte payload. concurrent: shuttle DFS over every interleaving of the pre-cipher/cipher/post-cipher segments of 2 threads x 2 calls and 3 threads x 1 call on a shared StatelessTransportState (7 call mixes, one of them reading into exactly payload-sized buffers, x ciphers x backends), every call's result compared with the sequential function; states = schedules explored");
+    ctx.set_rule("sequential: for every cipher x backend x writer role: read(n, write(n, p)) == p for an 80-value nonce alphabet x payload sizes {0,1,64,1000}, read twice, and the payload sizes 65503/65504/65518/65519; all 120 orders of five calls x 3 repetitions give identical bytes; stateless message under n == n-th stateful message for n in 0..=8, and == the stateful message after verif_set_sending_nonce(n) for 9 large nonces (up to 2^64-2, the last usable one), and for the 65519-byte payload. concurrent: shuttle DFS over every interleaving of the pre-cipher/cipher/post-cipher segments of 2 threads x 2 calls and 3 threads x 1 call on a shared StatelessTransportState (7 call mixes, one of them reading into exactly payload-sized buffers, x ciphers x backends), every call's result compared with the sequential function; states = schedules explored");
     // sequential
     let mut seq_jobs = vec![];
     for (c, b) in cipher_backends() {
